@@ -16,8 +16,9 @@ TraceLog == ndJsonDeserialize("trace.ndjson")
 N == Len(TraceLog)
 
 VARIABLES l,      \* position in TraceLog
-          half    \* [Gpus -> pending half of a two-event sub-step]
-tvars == <<vars, l, half>>
+          half,   \* [Gpus -> pending half of a two-event sub-step]
+          gc      \* forget completed requests (set by Reset; used for long traces of whole-system runs)
+tvars == <<vars, l, half, gc>>
 
 ASSUME HWInit
 
@@ -26,7 +27,7 @@ Is(e) == l <= N /\ Ev.e = e /\ l' = l + 1
 NoHalf == [k |-> "none", port |-> "", m |-> <<>>]
 Quiet == \A g \in Gpus : half[g].k = "none"
 
-TInit == Init /\ l = 1 /\ half = [g \in Gpus |-> NoHalf]
+TInit == Init /\ l = 1 /\ half = [g \in Gpus |-> NoHalf] /\ gc = FALSE
 
 \* logged message -> spec message (only the fields the spec knows)
 PR(x) == P(x.g, x.k, x.b)
@@ -56,7 +57,7 @@ Apply(g, sp, out, in) ==
 
 \* -------------------------------------------------------------- component
 TSend ==
-  /\ Is("Send")
+  /\ Is("Send") /\ UNCHANGED gc
   /\ LET g == Ev.g  k == Ev.k  m == Ev.m IN
      /\ g \in cfg.comps
      /\ IF k = "ctl" /\ m.t = "ctl" /\ m.c = "drainrsp"
@@ -69,7 +70,7 @@ TSend ==
              /\ half' = [half EXCEPT ![g] = NoHalf]
 
 TTake ==
-  /\ Is("Take")
+  /\ Is("Take") /\ UNCHANGED gc
   /\ LET g == Ev.g  k == Ev.k  m == Ev.m IN
      /\ g \in cfg.comps
      /\ IF k = "ctl" /\ m.t = "ctl" /\ m.c = "drain"
@@ -88,7 +89,7 @@ InNet(s, id) == \E x \in s : x.id = id
 Pick(s, id) == CHOOSE x \in s : x.id = id
 
 TRecv ==
-  /\ Is("Recv") /\ UNCHANGED half
+  /\ Is("Recv") /\ UNCHANGED <<half, gc>>
   /\ LET g == Ev.g  k == Ev.k  m == Ev.m IN
      CASE k = "rqi" -> m.t = "req" /\ EnvL1Req(g, ReqOf(m))
        [] k = "dto" -> /\ m.t = "req"
@@ -104,12 +105,22 @@ TRecv ==
                        /\ L2Rsp(Pick(env.l2, m.to), RspOf(m))
        [] k = "ctl" -> m.t = "ctl" /\ EnvCtrl(g, CtlOf(m))
 
+\* the answer reached its requester: with gc the root is forgotten
+L1TakeGC(g, r) ==
+  /\ port' = [port EXCEPT ![g].rqiOut = Tail(@)] /\ h' = Prune(h, r)
+  /\ UNCHANGED <<cfg, tab, ctl, env, used>>
+PeerTakeGC(g, r) ==
+  /\ port' = [port EXCEPT ![g].dtoOut = Tail(@)] /\ h' = Prune(h, r)
+  /\ UNCHANGED <<cfg, tab, ctl, env, used>>
+
 TPull ==
-  /\ Is("Pull") /\ UNCHANGED half
+  /\ Is("Pull") /\ UNCHANGED <<half, gc>>
   /\ LET g == Ev.g  k == Ev.k  m == Ev.m IN
-     CASE k = "rqi" -> port[g].rqiOut # <<>> /\ Head(port[g].rqiOut) = RspOf(m) /\ L1Take(g)
+     CASE k = "rqi" -> /\ port[g].rqiOut # <<>> /\ Head(port[g].rqiOut) = RspOf(m)
+                       /\ IF gc THEN L1TakeGC(g, m.to) ELSE L1Take(g)
        [] k = "rqo" -> port[g].rqoOut # <<>> /\ Head(port[g].rqoOut) = ReqOf(m) /\ NetTakeReq(g)
-       [] k = "dto" -> port[g].dtoOut # <<>> /\ Head(port[g].dtoOut) = RspOf(m) /\ NetTakeRsp(g)
+       [] k = "dto" -> /\ port[g].dtoOut # <<>> /\ Head(port[g].dtoOut) = RspOf(m)
+                       /\ IF gc /\ PR(m.dst).g \notin cfg.comps THEN PeerTakeGC(g, RootOf(m.to)) ELSE NetTakeRsp(g)
        [] k = "dti" -> port[g].dtiOut # <<>> /\ Head(port[g].dtiOut) = ReqOf(m) /\ L2Take(g)
        [] k = "ctl" -> port[g].ctlOut # <<>> /\ Head(port[g].ctlOut) = CtlOf(m) /\ EnvTakeCtrl(g)
 
@@ -118,7 +129,7 @@ TPull ==
 \* be left anywhere and every request must have been answered.
 TQuiesce ==
   /\ Is("Quiesce") /\ Quiet /\ Quiescent /\ \A r \in Roots : Answered(r)
-  /\ UNCHANGED vars /\ UNCHANGED half
+  /\ UNCHANGED vars /\ UNCHANGED <<half, gc>>
 
 SeqSet(s) == {s[i] : i \in 1..Len(s)}
 \* concatenated traces: start over with the configuration of the next run
@@ -132,6 +143,7 @@ TReset ==
   /\ env' = [nreq |-> {}, nrsp |-> {}, l2 |-> {}, phase |-> [c \in Gpus |-> "run"], nDrain |-> 0]
   /\ used' = {}
   /\ h' = NoHist
+  /\ gc' = ("gc" \in DOMAIN Ev /\ Ev.gc = 1)
   /\ UNCHANGED half
 
 TNext == TSend \/ TTake \/ TRecv \/ TPull \/ TQuiesce \/ TReset
